@@ -90,6 +90,26 @@ def segments_of(named):
     return segs
 
 
+REENTRANT = {}      # (class, first op, second op) -> times one goroutine acquired a mutex INSTANCE (address) it already held
+
+
+def note_reentrant(events):
+    held = {}
+    for cls, op, g, addr, fn in events:
+        h = held.setdefault(g, [])
+        if op in ("Lock", "RLock"):
+            for (a, o) in h:
+                if a == addr:
+                    k = (cls, o, op)
+                    REENTRANT[k] = REENTRANT.get(k, 0) + 1
+            h.append((addr, op))
+        else:
+            for i in range(len(h) - 1, -1, -1):
+                if h[i][0] == addr:
+                    del h[i]
+                    break
+
+
 def extract_programs(work, tier, seed):
     hs = relay_check.gen_random_histories(work, 120 if tier == "quick" else 600, 60, seed, ALL, "locks")
     hs += relay_check.gen_tlc_histories(work, 80 if tier == "quick" else 400, 40, seed, ALL, "locks")
@@ -106,6 +126,7 @@ def extract_programs(work, tier, seed):
         if r.get("k") != "step":
             continue
         named = name_events(r.get("locks", []), fnmap, addrmap)
+        note_reentrant(r.get("locks", []))
         k = (r.get("popped") or {}).get("k") or r["step"]
         ok = r["ret"] == "ok" and not any(m["t"] == "ERROR" for c, ms in r["out"] for m in ms if c == r.get("conn"))
         for s, inferred in segments_of(named):
@@ -319,6 +340,12 @@ def run(work, tier, replay=None):
                 missing.append((k, cm))
     if missing:
         leads.append(dict(kind="lock discipline", detail=["%s no longer takes %s (%s)" % (k, c, m) for k, (c, m) in missing]))
+    if REENTRANT:
+        # Go's RWMutex must not be read-locked recursively (a writer arriving in between blocks both): observed on sequential
+        # histories this is a lead; the deadlock itself is decided by the reader-vs-writer blocks of stage (A)
+        work.log("(B) re-entrant acquisitions of one mutex instance observed: %s" % sorted(REENTRANT.items())[:5])
+        leads.append(dict(kind="re-entrant acquisition of one mutex instance (a writer arriving in between blocks both goroutines)",
+                          detail=[[list(k), n] for k, n in sorted(REENTRANT.items())][:10]))
     work.log("(C) lock discipline: %d request kinds observed, %d deviations from the table" % (len(used), len(missing)))
     # (D) race detector, real threads
     races, nsc = race_stage(work, tier, work.seed)
@@ -356,7 +383,8 @@ def run(work, tier, replay=None):
         unconfirmed.append(ld)
     coverage = dict(states=st["distinct"] or 1, transitions=st["generated"] or 1, traces_validated_against_impl=conc["outcomes"] + nh,
                     schedules_executed_on_real_code=nsched, blocks=conc["scenarios"], lock_segments=len(segs), nested_segments=[list(map(list, s)) for s in nested][:30],
-                    acquired_while_holding=[list(e) for e in edges], lock_classes=classes, unresolved_lock_sites=unresolved,
+                    acquired_while_holding=[list(e) for e in edges],
+                    reentrant_acquisitions_of_one_mutex_instance=[[list(k), n] for k, n in sorted(REENTRANT.items())], lock_classes=classes, unresolved_lock_sites=unresolved,
                     discipline_deviations=[[k, list(cm)] for k, cm in missing], race_reports=[list(r) for r in races][:20],
                     samples=[dict(segment=[list(x) for x in (nested[0] if nested else list(segs)[0])], from_requests=sorted(segs[nested[0] if nested else list(segs)[0]]))],
                     per_block=conc["summaries"][:40],
